@@ -32,6 +32,11 @@ ASSUMPTIONS = [
 def _probe(src, info):
     if src.chance(1, 8):
         return ops.gen_new(src, info, bad_rate=(1, 3))
+    nodefault = [n for n, a in info.attrs().items() if a["default"][0] in ("none", "attr_none")]
+    if nodefault and src.chance(1, 8):
+        # deleting / resetting an attribute that may currently hold nothing (fails when it does)
+        a = src.pick(nodefault)
+        return {"t": "del", "attr": a} if src.chance(1, 2) else {"t": "call", "m": f"reset_{a}", "a": [], "k": {"_inplace": True}}
     return ops.gen_op(src, info, inplace=None, bad_rate=(45, 100), allow=("scalar", "element", "top", "nested"))
 
 
